@@ -43,6 +43,15 @@ func init() {
 		mcCodecCheck(c, func(v EdgeVerdict) string { return flagIf(v.Fresh && !v.Size, "size") })
 		codecTraceRun(c, "size", 12, 150, func(v CodecVerdict) bool { return v.Ev == "size" || v.Ev == "append" })
 	}})
+	register(&Check{ID: "C05", Level: "model_checking", Run: func(c *Ctx) {
+		c.R.Trusted = codecTrusted
+		// the model: DetIsPure / NonDetValid are invariants of MC_Codec (map iteration order explicit);
+		// replayed edges additionally check that the decoded message marshals to the model's bytes
+		mcCodecCheck(c, func(v EdgeVerdict) string { return flagIf(v.Fresh && !v.Enc, "detbytes") })
+		st := codecTraceRun(c, "pure", 8, 80, func(v CodecVerdict) bool { return v.Ev == "detn" })
+		c.R.Cov["detn_events"] = st.ByEv["detn"]
+		c.R.Assumptions = append(c.R.Assumptions, "Go map iteration order is randomised per range statement; each value is marshalled 6 times for each of 5 construction histories (30 marshals), maps have up to 9 keys")
+	}})
 	register(&Check{ID: "C14", Level: "model_checking", Run: func(c *Ctx) {
 		c.R.Trusted = codecTrusted
 		mcCodecCheck(c, func(v EdgeVerdict) string {
